@@ -63,6 +63,7 @@ pub fn rust_ty(recvs: &[Recv], ty: &Ty) -> String {
         Ty::Sc(Sc::Char) => "char".into(),
         Ty::Opt(t) => format!("Option<{}>", rust_ty(recvs, t)),
         Ty::Map(t) => format!("::std::collections::HashMap<String, {}>", rust_ty(recvs, t)),
+        Ty::PathList => "::darling::util::PathList".into(),
         Ty::Recv(id) => recvs[*id].name(),
         Ty::BoxRecv(id) => format!("Box<{}>", recvs[*id].name()),
     }
@@ -77,6 +78,7 @@ pub fn zero(recvs: &[Recv], ty: &Ty) -> Value {
         Ty::Sc(Sc::Char) => json!({"char": "\u{0}"}),
         Ty::Opt(_) => Value::Null,
         Ty::Map(_) => json!({"map": {}}),
+        Ty::PathList => json!({"paths": []}),
         Ty::Recv(id) | Ty::BoxRecv(id) => default_value(recvs, &recvs[*id]),
     }
 }
@@ -95,6 +97,7 @@ pub fn sentinel(recvs: &[Recv], ty: &Ty, tag: Tag, k: usize) -> Value {
             m.insert(format!("{}#{k}", tag.text()), sentinel(recvs, t, tag, k));
             json!({"map": Value::Object(m)})
         }
+        Ty::PathList => json!({"paths": []}),
         Ty::Recv(id) | Ty::BoxRecv(id) => default_value(recvs, &recvs[*id]),
     }
 }
@@ -108,7 +111,7 @@ pub fn sentinel_expr(recvs: &[Recv], ty: &Ty, tag: Tag, k: usize) -> String {
         Ty::Sc(Sc::Char) => format!("'{}'", tag.ch()),
         Ty::Opt(t) => format!("Some({})", sentinel_expr(recvs, t, tag, k)),
         Ty::Map(t) => format!("{{ let mut m = ::std::collections::HashMap::new(); m.insert(String::from(\"{}#{k}\"), {}); m }}", tag.text(), sentinel_expr(recvs, t, tag, k)),
-        Ty::Recv(_) => "::core::default::Default::default()".into(),
+        Ty::PathList | Ty::Recv(_) => "::core::default::Default::default()".into(),
         Ty::BoxRecv(_) => "Box::new(::core::default::Default::default())".into(),
     }
 }
